@@ -50,6 +50,8 @@ class TimeKeeper:
     """
 
     unit_table: typing.ClassVar = dict(s="seconds", m="minutes", h="hours", d="days")
+    # numpy spells days with a capital letter
+    numpy_unit: typing.ClassVar = dict(s="s", m="m", h="h", d="D")
 
     def __init__(
         self,
@@ -136,7 +138,7 @@ class TimeKeeper:
     def nctime(self, unit: str = "s") -> float:
         """Get float value of model time"""
         delta = self.time - self.reference_time
-        return float(delta / np.timedelta64(1, unit))
+        return float(delta / np.timedelta64(1, self.numpy_unit[unit]))
 
     def step2time(self, step: int) -> np.datetime64:
         if self.time_reversal:
@@ -168,7 +170,7 @@ class TimeKeeper:
             delta = self.start_time - stepnr * self.dt - self.reference_time
         else:
             delta = self.start_time + stepnr * self.dt - self.reference_time
-        return float(delta / np.timedelta64(1, unit))
+        return float(delta / np.timedelta64(1, self.numpy_unit[unit]))
 
     def cf_units(self, unit: str = "s") -> str:
         """Return string with units for time following the CF standard"""
